@@ -200,7 +200,7 @@ fn ptc_of(s: &RS) -> Option<RS> {
     std::panic::catch_unwind(std::panic::AssertUnwindSafe(|| pseudo_toroidal_cover(&to_partial_dsym(s)).and_then(|c| from_dsym(&c)))).ok().flatten()
 }
 
-fn coxeter_manifolds(tier: Tier) -> Vec<(String, RS)> {
+pub fn coxeter_manifolds(tier: Tier) -> Vec<(String, RS)> {
     use crate::refmodel::groups::Tc;
     let mut out = vec![];
     let diagrams: Vec<(&str, Vec<usize>, usize)> = if tier.is_thorough() { vec![("[3,3,3]", vec![3, 3, 3], 5), ("[4,3,3]", vec![4, 3, 3], 8), ("[3,4,3]", vec![3, 4, 3], 12)] } else { vec![("[3,3,3]", vec![3, 3, 3], 5), ("[4,3,3]", vec![4, 3, 3], 8)] };
